@@ -12,9 +12,22 @@ open NSem
 
 /-! ### the concrete iteration, cut into phases -/
 
-def cChoice (h : SM.Heu) (st : SM.NgS) : SM.NgS :=
+/-- a concrete heuristic: any function of the store, the vector shown to it and the number of earlier
+calls (`SM.heuCall h` for the built-in ones; an arbitrary custom closure otherwise) -/
+abbrev CHeu := Store → List Nat → Nat → Option (Nat × Nat)
+
+/-- what C05 asks of a heuristic: every answer is an undecided statement with a handle `0`/`1`, and an
+answer is given whenever an undecided statement exists -/
+structure HeuOK (hc : CHeu) : Prop where
+  valid : ∀ s v time i t, hc s v time = some (i, t) → t < 2 ∧ i < v.length ∧ ∃ x, v[i]? = some x ∧ isTV x = false
+  total : ∀ s v time, hc s v time = none → v.all isTV = true
+
+theorem heuOK_builtin (h : SM.Heu) : HeuOK (SM.heuCall h) :=
+  ⟨fun s v time i t hc => heuCall_valid h s v time i t hc, fun s v time hc => heuCall_none h s v time hc⟩
+
+def cChoice (hc : CHeu) (st : SM.NgS) : SM.NgS :=
   if st.choice then
-    match SM.heuCall h st.s st.cur st.time with
+    match hc st.s st.cur st.time with
     | some (v, t) =>
       let cur' := st.cur.set v t
       { st with choice := false, hist := st.cur :: st.hist, cur := cur', stack := (true, toPA cur') :: st.stack,
@@ -57,8 +70,8 @@ def cTail (n : Nat) (ac : List Nat) (stable : Bool) (st : SM.NgS) : SM.NgS :=
   | ClosT.update r => cFinal n ac stable { st with cur := r, stack := (false, toPA r) :: st.stack } true
   | ClosT.noUpdate => cFinal n ac stable st false
 
-def cIter (h : SM.Heu) (n : Nat) (ac : List Nat) (stable : Bool) (st : SM.NgS) : SM.NgS :=
-  let st1 := cChoice h st
+def cIter (hc : CHeu) (n : Nat) (ac : List Nat) (stable : Bool) (st : SM.NgS) : SM.NgS :=
+  let st1 := cChoice hc st
   if st1.backtrack && st1.stack.isEmpty then { st1 with done := true } else cTail n ac stable (cBack st1)
 
 /-- the tail of `SM.ngIter`, verbatim -/
@@ -90,7 +103,7 @@ def origTail (n : Nat) (ac : List Nat) (stable : Bool) (st : SM.NgS) : SM.NgS :=
 
 theorem ngIter_eq0 (h : SM.Heu) (n : Nat) (ac : List Nat) (stable : Bool) (st : SM.NgS) :
     SM.ngIter h n ac stable st =
-      (let st1 := cChoice h st
+      (let st1 := cChoice (SM.heuCall h) st
        if st1.backtrack && st1.stack.isEmpty then { st1 with done := true } else origTail n ac stable (cBack st1)) := rfl
 
 theorem origTail_eq (n : Nat) (ac : List Nat) (stable : Bool) (st : SM.NgS) :
@@ -103,7 +116,7 @@ theorem origTail_eq (n : Nat) (ac : List Nat) (stable : Bool) (st : SM.NgS) :
 
 /-- `SM.ngIter` is the composition of its phases -/
 theorem ngIter_eq (h : SM.Heu) (n : Nat) (ac : List Nat) (stable : Bool) (st : SM.NgS) :
-    SM.ngIter h n ac stable st = cIter h n ac stable st := by
+    SM.ngIter h n ac stable st = cIter (SM.heuCall h) n ac stable st := by
   rw [ngIter_eq0]; unfold cIter; simp only [origTail_eq]
 
 /-! ### the simulation relation -/
@@ -178,9 +191,9 @@ theorem fallback_none_of_total {V : List BoolFn} (h : twoV (cv V) = true) : fall
   obtain ⟨b, hb⟩ := twoV_true h i hi'
   rw [pget_eq_some.mpr hb]; simp
 
-theorem sim_choice (D : List BoolFn) (stable : Bool) (raw : Nat → Option (Nat × Bool)) (h : SM.Heu) (k : Nat)
-    {c : SM.NgS} {a : ASt} (hr : Rel c a) (hi : CInv s0 n c)
-    (hraw : raw k = conv (SM.heuCall h c.s c.cur c.time)) :
+theorem sim_choice (D : List BoolFn) (stable : Bool) (raw : Nat → Option (Nat × Bool)) {h : CHeu} (hok : HeuOK h)
+    (k : Nat) {c : SM.NgS} {a : ASt} (hr : Rel c a) (hi : CInv s0 n c)
+    (hraw : raw k = conv (h c.s c.cur c.time)) :
     Rel (cChoice h c) (NGen.step1 (semP D n stable raw) k a) ∧ CInv s0 n (cChoice h c) := by
   unfold cChoice NGen.step1
   rw [hr.ch]
@@ -188,9 +201,9 @@ theorem sim_choice (D : List BoolFn) (stable : Bool) (raw : Nat → Option (Nat 
   · rw [if_pos hc, if_pos hc]
     have hcv : cv a.cur = toPA c.cur := by rw [hr.cur]; exact cv_map_eval hi.wf hi.valid
     have hlenV : a.cur.length = c.cur.length := by rw [hr.cur]; simp
-    cases hh : SM.heuCall h c.s c.cur c.time with
+    cases hh : h c.s c.cur c.time with
     | none =>
-      have htv := heuCall_none h c.s c.cur c.time hh
+      have htv := hok.total c.s c.cur c.time hh
       have hheu : (semP D n stable raw).heu k a.cur = none := by
         show heuO raw k a.cur = none
         unfold heuO
@@ -202,7 +215,7 @@ theorem sim_choice (D : List BoolFn) (stable : Bool) (raw : Nat → Option (Nat 
       exact ⟨⟨hr.cur, hr.store, hr.stack, rfl, rfl, hr.out⟩, ⟨hi.wf, hi.ext, hi.valid, hi.len, hi.histOK, hi.nd⟩⟩
     | some vt =>
       obtain ⟨v, t⟩ := vt
-      have ⟨ht2, hv, x, hx, hxn⟩ := heuCall_valid h c.s c.cur c.time v t hh
+      have ⟨ht2, hv, x, hx, hxn⟩ := hok.valid c.s c.cur c.time v t hh
       have hheu : (semP D n stable raw).heu k a.cur = some (v, t == 1) := by
         show heuO raw k a.cur = some (v, t == 1)
         unfold heuO
@@ -479,13 +492,13 @@ theorem sim_tail (w0 : WF s0) (hac0 : ∀ t ∈ ac, t < s0.nodes.size) (hn : ac.
     exact sim_final ac stable raw w0 hac0 hn r2 i2 true
 
 /-- **one concrete iteration is one abstract iteration** -/
-theorem sim_iter (w0 : WF s0) (hac0 : ∀ t ∈ ac, t < s0.nodes.size) (hn : ac.length = n) (h : SM.Heu) (k : Nat)
-    {c : SM.NgS} {a : ASt} (hr : Rel c a) (hi : CInv s0 n c)
-    (hraw : raw k = conv (SM.heuCall h c.s c.cur c.time)) :
+theorem sim_iter (w0 : WF s0) (hac0 : ∀ t ∈ ac, t < s0.nodes.size) (hn : ac.length = n) {h : CHeu} (hok : HeuOK h)
+    (k : Nat) {c : SM.NgS} {a : ASt} (hr : Rel c a) (hi : CInv s0 n c)
+    (hraw : raw k = conv (h c.s c.cur c.time)) :
     match NGen.iter (PP s0 n ac stable raw) k a with
     | NGen.Res.done a' => (cIter h n ac stable c).done = true ∧ (cIter h n ac stable c).out.map toPA = a'.out
     | NGen.Res.cont a' => Rel (cIter h n ac stable c) a' ∧ CInv s0 n (cIter h n ac stable c) := by
-  have ⟨r1, i1⟩ := sim_choice (ac.map (eval s0)) stable raw h k hr hi hraw
+  have ⟨r1, i1⟩ := sim_choice (ac.map (eval s0)) stable raw hok k hr hi hraw
   unfold NGen.iter cIter
   simp only
   by_cases hd : (cChoice h c).backtrack = true ∧ (cChoice h c).stack = []
